@@ -302,27 +302,31 @@ Section WithMatch.
       end
     end.
 
-  Definition fwd_fail (a : agent) (subject cur : bundle) (acts : list action) (pre : list event)
-    : agent * list event :=
-    let '(a1, ev) := finish a subject cur (add ADel acts) (Some fwd_fail_reason) in
-    (a1, pre ++ ev).
+  (** [_do_fwd] up to and including [send_bundle] of the forwarded bundle: the agent (clock calls), the
+      bundle as mutated by [_apply_primary], the actions and reason recorded, and what reached the CL. *)
+  Definition prep_fails (b : bundle) : bool :=
+    (b_prep b =? 1) || (negb (b_time b =? 0) && (b_prep b =? 2)).
 
-  (** [_do_fwd] followed by [send_bundle] of the forwarded bundle. *)
-  Definition do_fwd (a : agent) (b : bundle) (acts : list action) (reason : option N) : agent * list event :=
-    if b_prep b =? 1 then fwd_fail a b b acts []
+  Definition fwd_plan (a : agent) (b : bundle) (acts : list action) (reason : option N)
+    : agent * bundle * list action * option N * list event :=
+    if b_prep b =? 1 then (a, b, add ADel acts, Some fwd_fail_reason, [])
     else
       let a1 := if b_time b =? 0 then a else tick a in                 (* age = timestamp() - creation *)
-      if negb (b_time b =? 0) && (b_prep b =? 2) then fwd_fail a1 b b acts []
+      if negb (b_time b =? 0) && (b_prep b =? 2) then (a1, b, add ADel acts, Some fwd_fail_reason, [])
       else
         (* send_bundle: _apply_primary replaces a zero creation time *)
-        let '(a2, b') := if b_time b =? 0 then (tick a1, set_ts b (a_now a1) (a_tsn a1)) else (a1, b) in
+        let a2 := if b_time b =? 0 then tick a1 else a1 in
+        let b' := if b_time b =? 0 then set_ts b (a_now a1) (a_tsn a1) else b in
         match send_path a2 (b_dst b') (b_size b') (has_flag (b_flags b') FLAG_NO_FRAGMENT) (is_frag b') (b_cached b') with
-        | SentWhole k =>
-          let '(a3, ev) := finish a2 b b' (add AFwd acts) reason in
-          (a3, EvTx b b' k :: ev)
-        | SentFrags k => fwd_fail a2 b b' acts [EvFrags b k; EvSendFail b false]
-        | SendRaise => fwd_fail a2 b b' acts [EvSendFail b false]
+        | SentWhole k => (a2, b', add AFwd acts, reason, [EvTx b b' k])
+        | SentFrags k => (a2, b', add ADel acts, Some fwd_fail_reason, [EvFrags b k; EvSendFail b false])
+        | SendRaise => (a2, b', add ADel acts, Some fwd_fail_reason, [EvSendFail b false])
         end.
+
+  Definition do_fwd (a : agent) (b : bundle) (acts : list action) (reason : option N) : agent * list event :=
+    let '(a2, cur, acts', reason', pre) := fwd_plan a b acts reason in
+    let '(a3, ev) := finish a2 b cur acts' reason' in
+    (a3, pre ++ ev).
 
   (** What [recv_bundle] does after the RX chain. [captured]: the chain reached the application steps
       with 'deliver' recorded (delivery callback). *)
@@ -335,6 +339,13 @@ Section WithMatch.
       let '(a1, ev1) := if mem ADlv acts then finish a b b acts reason else (a, []) in
       let '(a2, ev2) := if mem AFwd acts then do_fwd a1 b acts reason else (a1, []) in
       (a2, ev0 ++ ev1 ++ ev2).
+
+  (** RX steps 19/20 (BPSec): a verification failure replaces 'deliver' by 'delete' with the reason. *)
+  Definition sec_step (b : bundle) (acts0 : list action) : list action * option N :=
+    match b_sec b with
+    | Some rc => if mem ADlv acts0 then (add ADel (remove ADlv acts0), Some rc) else (acts0, None)
+    | None => (acts0, None)
+    end.
 
   (** Is this bundle processed at all ([recv_bundle] past its three gates)? *)
   Definition accepted (a : agent) (b : bundle) : bool :=
@@ -358,12 +369,8 @@ Section WithMatch.
         end
       else
         (* steps 19/20, BPSec verification: only for bundles to be delivered *)
-        let '(acts1, reason) :=
-          match b_sec b with
-          | Some rc => if mem ADlv acts0 then (add ADel (remove ADlv acts0), Some rc) else (acts0, None)
-          | None => (acts0, None)
-          end in
-        let '(a2, ev) := final a0 b acts1 reason (mem ADlv acts1) in (a2, ev, None).
+        let '(a2, ev) := final a0 b (fst (sec_step b acts0)) (snd (sec_step b acts0))
+                               (mem ADlv (fst (sec_step b acts0))) in (a2, ev, None).
 
   (** One bundle from the CL, with everything it triggers on the idle queue: a list of
       (processed bundle, events) - the bundle itself and possibly the reassembled one. *)
